@@ -37,7 +37,11 @@ def operator(fam, n, cplx, seed):
             lam = np.linspace(-2, 3, n) if n > 1 else np.array([1.5])
             A = ops.Diagonal(lam.astype(np.complex128 if cplx else np.float64))
         return cola.SelfAdjoint(A), np.diag(lam).astype(np.complex128 if cplx else np.float64), lam, np.eye(n)
-    if fam == "definite":
+    if fam == "tiny":  # the definite family at the scale 2^-45 ~ 2.8e-14: every tolerance of the property is relative to the operator
+        lam = (np.linspace(1, 10, n) if n > 1 else np.array([2.0])) * 2.0**-45
+    elif fam == "huge":
+        lam = (np.linspace(-4, 6, n) if n > 1 else np.array([-2.0])) * 2.0**40
+    elif fam == "definite":
         lam = np.linspace(1, 10, n) if n > 1 else np.array([2.0])
     elif fam == "indefinite":
         lam = np.linspace(-4, 6, n) if n > 1 else np.array([-2.0])
@@ -56,6 +60,8 @@ def start(vkind, n, cplx, Qe, seed):
     rnd = lambda *s: g.standard_normal(s) + (1j * g.standard_normal(s) if cplx else 0)  # noqa: E731
     if vkind == "rand":
         return rnd(n), n
+    if vkind == "randtiny":
+        return rnd(n) * 2.0**-45, n
     if vkind == "batch":
         return rnd(n, 2), n
     if vkind == "batchmix":  # an eigenvector next to a random vector: the two columns exhaust their Krylov spaces at different steps
@@ -84,7 +90,7 @@ def check_one(M, v, Qd, Td, j, m, tol, d_inv, lam, fam, bad, normA, check_first=
     if j < 1 or j > min(m, n):
         bad("too-many-or-no-columns", {"columns": j, "max_iters": m})
         return
-    if fam in ("definite", "indefinite") and d_inv == n and n <= 40 and tol <= 1e-7 and j < min(m, n) and exhausted_at is None:
+    if fam in ("definite", "indefinite", "tiny", "huge") and d_inv == n and n <= 40 and tol <= 1e-7 and j < min(m, n) and exhausted_at is None:
         # simple, well separated spectrum and a generic start vector: the only reasons to stop are the cap and n
         bad("stopped-before-the-cap-without-exhaustion", {"columns": j, "max_iters": m})
     if not (np.all(np.isfinite(Qd)) and np.all(np.isfinite(Td))):
@@ -113,7 +119,7 @@ def check_one(M, v, Qd, Td, j, m, tol, d_inv, lam, fam, bad, normA, check_first=
     if j > 1 and np.max(np.abs(Rm[:, :-1])) > 1e-8 * normA:
         bad("relation-AQ-QT-nonzero-before-last-column", {"err": float(np.max(np.abs(Rm[:, :-1])) / normA)})
     # Krylov span, directly, while the reference basis is well conditioned
-    if v is not None and fam in ("definite", "indefinite") and n <= 40:
+    if v is not None and fam in ("definite", "indefinite", "tiny", "huge") and n <= 40:
         Qref = K.krylov_basis(lambda x: M @ x, v, min(j, 8))
         for i in range(1, Qref.shape[1] + 1):
             Pq = Qref[:, :i]
@@ -149,7 +155,7 @@ def run_case(case, seed):
         v, d_inv = start(vkind, n, cplx, Qe, seed)
         if not isinstance(d_inv, int):
             # dimension of the Krylov space = number of DISTINCT eigenvalues among the chosen eigenvectors
-            d_inv = len(set(np.round(lam[d_inv], 9)))
+            d_inv = len(set(np.round(lam[d_inv] / np.max(np.abs(lam)), 9)))
         if fam in ("Identity", "ScalarMul"):
             d_inv = 1
         elif fam == "repeated" and vkind in ("rand", "batch", "default"):
@@ -222,13 +228,15 @@ def cases(tier, seed):
     out = []
     small = [1, 2, 3, 4, 5, 6]
     big = [12, 40] if tier == "quick" else [12, 40, 300]
-    for fam in ("definite", "indefinite", "repeated", "clustered", "Identity", "ScalarMul", "Diagonal"):
+    for fam in ("definite", "indefinite", "repeated", "clustered", "tiny", "huge", "Identity", "ScalarMul", "Diagonal"):
         for n in small + big:
             if fam in ("Identity", "ScalarMul", "Diagonal") and n > 12:
                 continue
             ms = list(range(1, n + 4)) if n <= 6 else sorted({1, 2, 5, n - 1, n, n + 5, 1000})
             for cplx in (False, True):
-                for vk in ("rand", "eig1", "eig2", "eig3", "batch", "batchmix", "default"):
+                for vk in ("rand", "eig1", "eig2", "eig3", "batch", "batchmix", "default", "randtiny"):
+                    if (fam in ("tiny", "huge") and vk not in ("rand", "eig2", "batch", "default")) or (vk == "randtiny" and fam not in ("definite", "indefinite")):
+                        continue
                     if fam in ("Identity", "ScalarMul") and vk in ("eig2", "eig3", "batchmix"):
                         continue
                     if vk == "batchmix" and (n < 3 or fam not in ("definite", "indefinite")):
@@ -252,8 +260,8 @@ def case_signature(case):
 
 def describe(tier, seed):
     return {
-        "bound": "Hermitian operators {definite, indefinite, repeated (3 distinct values), clustered (gap 1e-6)} real / complex and Identity / ScalarMul / "
-                 "Diagonal operators, n in " + str(_DESC.get("sizes")) + "; start vectors {random, eigenvector, sum of 2 / 3 eigenvectors, 2-column "
+        "bound": "Hermitian operators {definite, indefinite, repeated (3 distinct values), clustered (gap 1e-6), definite at scale 2^-45, indefinite at scale 2^40} real / complex and Identity / ScalarMul / "
+                 "Diagonal operators, n in " + str(_DESC.get("sizes")) + "; start vectors {random, random at scale 2^-45, eigenvector, sum of 2 / 3 eigenvectors, 2-column "
                  "batch, default keyed}; every max_iters in 1..n+3 (n<=6) / {1,2,5,n-1,n,n+5,1000}; tol in {1e-12, 1e-7, 1e-3}; entry points lanczos, "
                  "lanczos_eigs, Lanczos()(A)",
         "alphabet": _DESC,
